@@ -10,6 +10,9 @@ package main
 //	ins <path> <hexvalue> | del <path>   the caller's path and value buffers are scribbled over afterwards
 //	get <path>                       GetNodeValueRaw through the trie and through a CloneMPT (fresh cache); every
 //	                                 returned slice is scribbled over afterwards
+//	insfill <path> <len> <fill>      Insert of a len-byte value v[i] = (fill + 31 i) mod 256 (sizes around
+//	                                 MPTMaxAllowableNodeSize): must be stored when len <= Max, rejected (toolarge) above;
+//	                                 byte strings above 4 kB are printed as "#<len>:<SHA3>" on both sides
 //	insstr <path> <hex s>            Insert of a typed value (a msgp string: MarshalMsg = msgp.AppendString)
 //	val <path>                       typed reads and the value node: GetNodeValue into a SecureSerializableValue and into a
 //	                                 msgp string (UnmarshalMsg = msgp.ReadStringBytes, may fail), and the ValueNode that
@@ -98,7 +101,7 @@ func lookupScribble(mpt *util.MerklePatriciaTrie, path string) string {
 		if err != nil {
 			return errKind(err)
 		}
-		out := "ok " + hx(v)
+		out := "ok " + hxBig(v)
 		for j := range v {
 			v[j] ^= 0xff
 		}
@@ -120,7 +123,7 @@ func (st *c14State) readBack(tag string, db util.NodeDB, fail func(string, ...in
 		for p := range st.used {
 			want := "notpresent"
 			if v, ok := st.content[p]; ok {
-				want = "ok " + hx(v)
+				want = "ok " + hxBig(v)
 			}
 			if got := lookupScribble(m2, p); got != want {
 				fail("%s: lookup(%s) through a fresh trie over the store (pass %d) = %q, want %q", tag, ptok(p), pass, got, want)
@@ -278,7 +281,7 @@ func runC14x(ops []string, scribblePaths bool) CaseResult {
 			st.used[path] = true
 			want := "notpresent"
 			if v, ok := st.content[path]; ok {
-				want = "ok " + hx(v)
+				want = "ok " + hxBig(v)
 			}
 			out = lookupScribble(st.mpt, path)
 			if out != want {
@@ -289,6 +292,43 @@ func runC14x(ops []string, scribblePaths bool) CaseResult {
 			}
 			if got := lookupScribble(st.mpt, path); got != want {
 				fail("second lookup = %q, want %q", got, want)
+			}
+		case "insfill":
+			path := pathOf(f[1])
+			st.used[path] = true
+			n, _ := strconv.Atoi(f[2])
+			fill, _ := strconv.Atoi(f[3])
+			val := make([]byte, n)
+			for j := range val {
+				val[j] = byte((fill + 31*j) % 256)
+			}
+			valBuf := append([]byte(nil), val...)
+			out = guard(func() string {
+				k, err := st.mpt.Insert([]byte(path), mkVal(valBuf))
+				if err != nil {
+					return errKind(err)
+				}
+				return "ok " + rootStr(k)
+			})
+			for j := range valBuf {
+				valBuf[j] ^= 0xff
+			}
+			switch {
+			case n > util.MPTMaxAllowableNodeSize:
+				if out != "toolarge" {
+					fail("a value of %d bytes (limit %d) was not rejected: %s", n, util.MPTMaxAllowableNodeSize, out)
+				}
+				tags["value:above-max"] = true
+			case strings.HasPrefix(out, "ok"):
+				st.content[path] = val
+				mutations++
+				tags[fmt.Sprintf("value:max%+d", n-util.MPTMaxAllowableNodeSize)] = n >= util.MPTMaxAllowableNodeSize-64
+				if n < util.MPTMaxAllowableNodeSize-64 {
+					delete(tags, fmt.Sprintf("value:max%+d", n-util.MPTMaxAllowableNodeSize))
+					tags["value:mid-size"] = true
+				}
+			default:
+				fail("a value of %d bytes (limit %d) was not stored: %s", n, util.MPTMaxAllowableNodeSize, out)
 			}
 		case "insstr":
 			path := pathOf(f[1])
@@ -317,7 +357,7 @@ func runC14x(ops []string, scribblePaths bool) CaseResult {
 				if err := st.mpt.GetNodeValue([]byte(path), &raw); err != nil {
 					return errKind(err)
 				}
-				res := "ok " + hx(raw.Buffer)
+				res := "ok " + hxBig(raw.Buffer)
 				var ms msgpString
 				if err := st.mpt.GetNodeValue([]byte(path), &ms); err != nil {
 					res += " str=err"
@@ -338,7 +378,7 @@ func runC14x(ops []string, scribblePaths bool) CaseResult {
 					return res + " vn=none"
 				}
 				enc := vn.Encode()
-				res += " vn=" + hx(enc) + " h=" + hx(vn.GetHashBytes())
+				res += " vn=" + hxBig(enc) + " h=" + hx(vn.GetHashBytes())
 				n2, err := util.CreateNode(bytes.NewReader(enc))
 				if err != nil {
 					fail("CreateNode of the value node's encoding: %v", err)
@@ -359,7 +399,7 @@ func runC14x(ops []string, scribblePaths bool) CaseResult {
 			})
 			want := "notpresent"
 			if v, ok := st.content[path]; ok {
-				want = "ok " + hx(v)
+				want = "ok " + hxBig(v)
 			}
 			if !strings.HasPrefix(out, want) {
 				fail("typed read = %q, want prefix %q", out, want)
@@ -481,9 +521,34 @@ func ptokHex(b []byte) string {
 	return hx(b)
 }
 
+// genC14Big: values around MPTMaxAllowableNodeSize (value length Max+1 rejected; Max, Max-1 stored; leaf ENCODING of
+// exactly Max-1, Max, Max+1 bytes = value of Max-17-2-len(prefix+path)+{-1,0,1}) and a 2 MiB value.
+func genC14Big(r *rand.Rand, kind string, which int) []string {
+	max := util.MPTMaxAllowableNodeSize
+	ops := []string{fmt.Sprintf("new %s %d", kind, 1+r.Intn(4)), "ins aa11 4142", "ins aa22 43"}
+	switch which {
+	case 0:
+		ops = append(ops, fmt.Sprintf("insfill ab12 %d %d", max+1, r.Intn(256)), fmt.Sprintf("insfill ab12 %d %d", max, r.Intn(256)), "store")
+	case 1:
+		ops = append(ops, fmt.Sprintf("insfill ab12 %d %d", max-1, r.Intn(256)), "val ab12", "save")
+	case 2:
+		// leaf at position "a", path "b12": encoding = 17 + 1 + 1 + 3 + 1 + len
+		ops = append(ops, fmt.Sprintf("insfill ab12 %d %d", max-23+r.Intn(3)-1, r.Intn(256)), "get ab12", "store")
+	default:
+		ops = append(ops, fmt.Sprintf("insfill ab12 %d %d", 2*1024*1024+r.Intn(3), r.Intn(256)), "get ab12", "val ab12", "ins ab13 44", "del aa22", "store", "save")
+	}
+	return ops
+}
+
 func genC14(r *rand.Rand, tier string, idx int) []string {
 	stores := []string{"mem", "level", "pndb"}
 	kind := stores[idx%3]
+	if idx%1500 == 700 {
+		return genC14Big(r, kind, (idx/1500)%4)
+	}
+	if idx%2000 == 250 {
+		return genC14Big(r, kind, 3)
+	}
 	ver := int64(r.Intn(5))
 	if r.Intn(10) == 0 {
 		ver = int64(r.Int63()) // large origins exercise all eight bytes
@@ -556,7 +621,7 @@ func genC14(r *rand.Rand, tier string, idx int) []string {
 func init() {
 	register(&Suite{
 		Name: "c14",
-		Rule: "random trie histories (paths as in c01; values with ':' runs, NUL, msgpack-looking, 32-byte and up to 300 random bytes; changing and 63-bit versions) on memory, layered (stacked LevelNodeDB) and persistent stores; every entry of every store is checked (key = hash, CreateNode(Encode) round trip, raw bytes) and the trie is re-derived bottom-up from the stored bytes; non-trivial = at least 2 successful mutations, non-empty final content, store inspected",
+		Rule: "random trie histories (paths as in c01; values with ':' runs, NUL, msgpack-looking, 32-byte and up to 300 random bytes; a few cases per run with values of MPTMaxAllowableNodeSize+1 (rejected), Max, Max-1, a leaf encoding of Max-1 / Max / Max+1 bytes and 2 MiB; changing and 63-bit versions) on memory, layered (stacked LevelNodeDB) and persistent stores; every entry of every store is checked (key = hash, CreateNode(Encode) round trip, raw bytes) and the trie is re-derived bottom-up from the stored bytes; non-trivial = at least 2 successful mutations, non-empty final content, store inspected",
 		Gen:  genC14,
 		Run:  runC14,
 		DefaultN: func(tier string) int {
